@@ -309,6 +309,8 @@ def listtbl_jobs(tier):
         jobs.append(Job("listtbl-values-opt%02d" % opt, H, ["values", opt], wraps=VA_WRAPS, weight=6))
     for opt in (0, 2, 4, 8, 12):
         jobs.append(Job("listtbl-multi-opt%02d" % opt, H, ["multi", opt], wraps=VA_WRAPS, weight=1))
+    for opt in (0, 1, 3, 9):
+        jobs.append(Job("listtbl-pair-opt%02d" % opt, H, ["pair", opt], wraps=VA_WRAPS, weight=2))
     jobs.append(bigfmt_job("qlisttbl"))
     return jobs
 
